@@ -1,7 +1,16 @@
 (* The oracle of C05 accepts what the model does, on the whole domain; and what every accepted
    observation implies in plain terms. *)
-Require Import V.Base.MachineInt V.Generated.GenConsts V.Model.LogBase V.Model.Descriptor V.Model.Reader V.Model.Image
-               V.Oracle.C05Cases V.Oracle.C05Oracle V.Proofs.DescriptorProofs V.Proofs.ReaderProofs V.Proofs.ImageProofs.
+Require Import V.Base.MachineInt.
+Require Import V.Generated.GenConsts.
+Require Import V.Model.LogBase.
+Require Import V.Model.Descriptor.
+Require Import V.Model.Reader.
+Require Import V.Model.Image.
+Require Import V.Oracle.C05Cases.
+Require Import V.Oracle.C05Oracle.
+Require Import V.Proofs.DescriptorProofs.
+Require Import V.Proofs.ReaderProofs.
+Require Import V.Proofs.ImageProofs.
 From Coq Require Import ZifyBool.
 Open Scope Z_scope.
 
